@@ -205,6 +205,36 @@ void run_state_sections() {
         });
         vf::require_outcomes("stale", 4);
     }
+    // ---- reentry: comparator / copier callbacks that themselves make a mocked call
+    {
+        vf::info("reentry.bound", "custom type R whose callbacks make a complete nested mocked call in scope n (actualCall h with an int parameter, returnIntValueOrDefault) through the same interface as the outer scenario (C functions -> mock_scope_c, C++ objects -> mock): every non-empty subset of {isEqual, valueToString, copy} nests (7) x nested expectation prepared for 0/1/2/3 calls x with/without a return value x 6 outer shapes in the global scope, each continuing after the callback with an int parameter, returnIntValueOrDefault on the handle and on the support object: R parameter equal / different (failure text renders R values), R output parameter, R parameter and R output parameter, int parameter mismatch after the R parameter, expectation with an R parameter never called (checkExpectations renders it in the teardown); the nested calls made (count, returned values) are compared as well");
+        vf::section_index("reentry", 7 * 4 * 2 * 6, [&](long idx) {
+            vf::Radix r(idx);
+            int mask = (int)r.take(7) + 1, nprep = (int)r.take(4), nret = (int)r.take(2), shape = (int)r.take(6);
+            const char* Nn = "n";
+            Program p;
+            p.nest.in_equal = mask & 1; p.nest.in_tostring = (mask >> 1) & 1; p.nest.in_copy = (mask >> 2) & 1;
+            p.install_cmp("R", 2); p.install_cpy("R", 2);
+            if (nprep) { p.expect_n((unsigned)nprep, "h", Nn); p.e_param("x", vint(1)); if (nret) p.e_ret(vint(9)); }
+            p.expect_one("f");
+            bool par = shape != 2, outp = shape == 2 || shape == 3;
+            if (par) p.e_param("p", vobj(&g_t[0]), "R");
+            if (outp) p.e_out_typed("R", "o", &g_t[3]);
+            p.e_param("q", vint(1)); p.e_ret(vint(7));
+            if (shape != 5) {
+                p.actual("f");
+                if (par) p.a_param("p", vobj(shape == 1 ? &g_t[1] : &g_t[2]), "R");
+                if (outp) p.a_out_typed("R", "o", 0);
+                p.a_param("q", vint(shape == 4 ? 2 : 1));
+                p.getter_def(C19_A_GETDEF, vint(-1));
+                p.simple(C19_A_HAS);
+                p.getter_def(C19_S_GETDEF, vint(-2));
+            }
+            p.end_body(); p.simple(C19_CHECK); p.simple(C19_LEFT); p.simple(C19_CLEAR); p.simple(C19_REMOVE_ALL);
+            differential(p, vf::fmt("%d/%d/%d/%d", mask, nprep, nret, shape));
+        });
+        vf::require_outcomes("reentry", 30);
+    }
     // ---- cmpscope
     if (sanitized()) {
         vf::info("cmpscope.bound", "comparators and copiers x scopes (sanitizer build only: a wrong lifetime shows as a use after free): scope s created before or after the installation x installed on {global, s} x kind {comparator used by a parameter of type T, copier used by an output parameter of type T} x removeAllComparatorsAndCopiers on {nobody, global, s} x used in {global, s}; each case in a forked child");
